@@ -58,7 +58,7 @@ impl Prop for C06 {
         "one case = (world with a mode graph, history of next/peek_n/set_mode on iterator and Scanner/mode queries) from (seed, run index); distinct = distinct hash of literal world+history; non-trivial = at least one executed mode switch AND at least one mid-stream set_mode followed by a token"
     }
     fn runs(&self) -> (u64, u64) {
-        (120_000, 3_000_000)
+        (120_000, 4_000_000)
     }
     fn expected_probes(&self) -> &'static [&'static str] {
         &[
